@@ -40,8 +40,22 @@ def container_cases(ctx):
             def fresh():
                 return acls([cls.from_ticks(i * 7 + 1) for i in range(size)])
             good = cls.from_ticks(99)
-            bad = [other.from_ticks(5), 5, "x", None, 1.5]
+            import datetime as _dt
+            import hightime as _ht
+            # wrong elements: unrelated types, the other bintime class, and values of the related time families (whether a class
+            # accepts or refuses those, a call that raises must not have stored part of its argument)
+            bad = [other.from_ticks(5), 5, "x", None, 1.5, _dt.datetime(2020, 1, 1), _dt.datetime(2020, 1, 1, tzinfo=_dt.timezone(_dt.timedelta(hours=2))),
+                   _ht.datetime(2020, 1, 1), _dt.timedelta(seconds=1), _ht.timedelta(seconds=1), float("nan")]
             calls = []
+            # the offending item at every position of a replacement list, for every relation between selection and list length
+            for b in bad[:1] + bad[5:9]:
+                for sel in ((0, 1), (0, 2), (1, 1), (0, size), (size, size)):
+                    for m in (1, 2, 3, 5):
+                        for j in range(m):
+                            items = [good] * m
+                            items[j] = b
+                            calls.append((f"slice-assign[{sel[0]}:{sel[1]}]-{m}-items-bad-at-{j}", lambda a, items=items, sel=sel: a.__setitem__(slice(*sel), list(items)), [b]))
+                            calls.append((f"slice-assign[{sel[0]}:{sel[1]}]-{m}-items-bad-at-{j}-iter", lambda a, items=items, sel=sel: a.__setitem__(slice(*sel), iter(list(items))), [b]))
             for b in bad:
                 calls += [("setitem-bad-elem", lambda a, b=b: a.__setitem__(0, b), [b]),
                           ("insert-bad-elem", lambda a, b=b: a.insert(0, b), [b]),
